@@ -113,6 +113,7 @@ type c29bCall struct {
 	items     []c29bItem
 	tags      []string
 	callSeq   int
+	subRetSeq int // SubmitLocal returned (group entry); 0 for the router entry
 	retSeq    int
 	afterStop bool // the call started after a Stop call had returned
 	refused   error
@@ -161,6 +162,17 @@ type c29bWorld struct {
 	finalSeq      int
 	protoErr      []string
 	accounted     bool
+
+	// pipelined / paced submissions and prepare latency
+	totalCalls      int             // scripted SubmitLocal calls
+	submitStarted   int             // SubmitLocal calls begun
+	submitReturned  int             // SubmitLocal calls returned
+	prepSeen        map[string]bool // batches (submitter.batch) whose prepare reached the authorizer
+	prepBatches     int
+	prepCalls       int
+	prepActive      [2]int // authorizer calls in progress per channel
+	prepConcurrent  int    // executions' max of prepActive
+	arrivedInWindow int    // SubmitLocal calls that returned while a prepare call of the same channel was in progress and an append of it was in flight
 }
 
 func (w *c29bWorld) tick() int { w.clock++; return w.clock }
@@ -234,6 +246,11 @@ func (l c29bLog) AppendBatch(ctx context.Context, req channelappend.AppendBatchR
 		w.parkedAppends++
 		vsched.WaitUntil("append-parked", func() bool { return w.gateOpen })
 	}
+	if w.cfg.parkSubmitted && w.submitReturned < w.totalCalls {
+		// a slow appender: the append stays in flight (per-channel limit reached) until every
+		// scripted submission has been made
+		vsched.WaitUntil("append-parked-until-all-submitted", func() bool { return w.submitReturned >= w.totalCalls })
+	}
 	if err := ctx.Err(); err != nil {
 		w.ctxCancelled = append(w.ctxCancelled, "AppendBatch("+req.ChannelID.ID+"): "+err.Error())
 		return channelappend.AppendBatchResult{}, err
@@ -295,6 +312,44 @@ func c29bHash(p string) uint64 {
 		h *= 1099511628211
 	}
 	return h
+}
+
+// c29bAuth is the Authorizer port: the lock-free prepare step of a writer pass. Its latency is a
+// scheduling point ("point") or a 1ms virtual sleep ("sleep": everything else runs first unless
+// the scheduler spends a delay on firing the timer early).
+type c29bAuth struct{ w *c29bWorld }
+
+// c29bBatchOf returns "<submitter>.<batch>" of an item tag "t<submitter>.<batch>.<index><item>".
+func c29bBatchOf(tag string) string {
+	parts := strings.SplitN(tag, ".", 3)
+	if len(parts) < 3 {
+		return tag
+	}
+	return parts[0] + "." + parts[1]
+}
+
+func (a c29bAuth) AuthorizeSend(_ context.Context, cmd channelappend.SendCommand) (channelappend.Decision, error) {
+	w := a.w
+	w.prepCalls++
+	if b := c29bBatchOf(cmd.Topic); !w.prepSeen[b] {
+		w.prepSeen[b] = true
+		w.prepBatches++
+	}
+	ch := w.chanIndex(cmd.ChannelID)
+	if ch >= 0 {
+		w.prepActive[ch]++
+		if w.prepActive[ch] > w.prepConcurrent {
+			w.prepConcurrent = w.prepActive[ch]
+		}
+		defer func() { w.prepActive[ch]-- }()
+	}
+	switch w.cfg.prep {
+	case "sleep":
+		vtime.Sleep(time.Millisecond)
+	default:
+		vsched.Point("authorize-latency")
+	}
+	return channelappend.Decision{Allowed: true, Reason: channelappend.ReasonSuccess}, nil
 }
 
 type c29bPersistAfter struct{ w *c29bWorld }
@@ -360,6 +415,23 @@ type c29bCfg struct {
 	bound       int
 	atomics     bool // every atomic operation of the rewritten code is a scheduling point
 	quiet       bool
+
+	// pipeline: a submitter makes all its SubmitLocal calls first and waits for the futures
+	// afterwards (group entry only)
+	pipeline bool
+	// paced: a SubmitLocal call starts once every batch submitted before it (by any submitter)
+	// has reached the prepare step of a writer pass - with a prepare latency every batch but the
+	// first arrives in the inbox while the pass is inside the lock-free prepare of its predecessor
+	paced bool
+	// prep: "" = no Authorizer configured, "point" = authorizer latency is a scheduling point,
+	// "sleep" = 1ms virtual sleep
+	prep string
+	// parkSubmitted: an AppendBatch call stays in progress until all scripted submissions were made
+	parkSubmitted bool
+	// subOrder: submission order for the ordering oracle is "SubmitLocal returned before the later
+	// SubmitLocal call started" (set for the group entry with one append in flight per channel;
+	// otherwise "the earlier call's results were complete")
+	subOrder bool
 }
 
 func c29bScenario(cfg c29bCfg) vsched.Scenario {
@@ -369,6 +441,8 @@ func c29bScenario(cfg c29bCfg) vsched.Scenario {
 			"effect_pool_size": cfg.effect, "append_inflight_batches_per_channel": cfg.inflight, "inbox_coalescing": cfg.coalesce, "appender_reply_lost_fault": cfg.faults, "effect_latency": map[bool]string{false: "scheduling point", true: "1ms virtual sleep"}[cfg.slow],
 			"post_commit_effect": cfg.postCommit, "submitter_scripts": cfg.scripts, "stop_mode": cfg.stop, "append_parked_until_first_stop_returned": cfg.parkAppend,
 			"post_commit_parked_until_first_stop_returned": cfg.parkPersist, "stopper_starts_after_submit_calls": cfg.gate, "quiet_atomics": cfg.quiet,
+			"pipelined_submissions": cfg.pipeline, "submissions_paced_by_prepare": cfg.paced, "prepare_authorizer_latency": map[string]string{"": "no authorizer", "point": "scheduling point", "sleep": "1ms virtual sleep"}[cfg.prep],
+			"append_parked_until_all_submitted": cfg.parkSubmitted, "order_relation": map[bool]string{true: "SubmitLocal returned before the later SubmitLocal started", false: "results complete before the later call started"}[cfg.subOrder],
 			"items": "<channel a|b><a=(u1,n1,P) A=(u1,n1,Q) b=(u1,n2,P) c=(u2,n1,P) d=(u2,n3,P) x=(u1,-,P)>"},
 		Body:  func(x *vsched.Exec) { c29bBody(x, cfg) },
 		Check: c29bCheck,
@@ -376,7 +450,10 @@ func c29bScenario(cfg c29bCfg) vsched.Scenario {
 }
 
 func c29bBody(x *vsched.Exec, cfg c29bCfg) {
-	w := &c29bWorld{cfg: cfg, persisted: map[string]int{}}
+	w := &c29bWorld{cfg: cfg, persisted: map[string]int{}, prepSeen: map[string]bool{}}
+	for t := range cfg.scripts {
+		w.totalCalls += len(cfg.scripts[t])
+	}
 	x.Data["w"] = w
 	log := c29bLog{w}
 	opts := channelappend.Options{
@@ -389,6 +466,9 @@ func c29bBody(x *vsched.Exec, cfg c29bCfg) {
 	}
 	if cfg.postCommit {
 		opts.PersistAfterEnqueuer = c29bPersistAfter{w}
+	}
+	if cfg.prep != "" {
+		opts.Authorizer = c29bAuth{w}
 	}
 	g := channelappend.New(opts)
 	if err := g.Start(context.Background()); err != nil {
@@ -412,6 +492,11 @@ func c29bBody(x *vsched.Exec, cfg c29bCfg) {
 		vsched.GoNamed(fmt.Sprintf("submitter-%d", t), func() {
 			defer wg.Done()
 			defer func() { submittersDone++ }()
+			type pending struct {
+				call *c29bCall
+				f    *channelappend.Future
+			}
+			var pipelined []pending
 			for bi, spec := range cfg.scripts[t] {
 				call := &c29bCall{thread: t, idx: bi, spec: spec}
 				items := make([]channelappend.SendBatchItem, 0, len(spec))
@@ -423,6 +508,10 @@ func c29bBody(x *vsched.Exec, cfg c29bCfg) {
 					items = append(items, channelappend.SendBatchItem{Context: context.Background(), Command: channelappend.SendCommand{
 						FromUID: it.from, ClientMsgNo: it.no, ChannelID: c29bChannels[it.ch], ChannelType: c29bType, Payload: []byte(it.payload), Topic: tag}})
 				}
+				if cfg.paced {
+					vsched.WaitUntil("submitter-paced-by-prepare", func() bool { return w.prepBatches >= w.submitStarted })
+				}
+				w.submitStarted++
 				call.afterStop = w.stopReturned
 				call.callSeq = w.tick()
 				w.calls = append(w.calls, call)
@@ -430,16 +519,33 @@ func c29bBody(x *vsched.Exec, cfg c29bCfg) {
 				if cfg.router {
 					call.results = router.SendBatch(items)
 					call.admitted = true
+					w.submitReturned++
 				} else {
 					f, err := g.SubmitLocal(context.Background(), c29bTarget(c29bChannels[call.items[0].ch]), items)
+					call.subRetSeq = w.tick()
+					w.submitReturned++
+					if ch := call.items[0].ch; w.prepActive[ch] > 0 && w.inChan[ch] > 0 {
+						w.arrivedInWindow++
+					}
 					if err != nil {
 						call.refused = err
+						// never reaches a writer pass: does not hold back the paced submitters
+						w.prepSeen[c29bBatchOf(call.tags[0])] = true
+						w.prepBatches++
 					} else {
 						call.admitted = true
+						if cfg.pipeline {
+							pipelined = append(pipelined, pending{call, f})
+							continue
+						}
 						call.results, call.waitErr = f.Wait(context.Background())
 					}
 				}
 				call.retSeq = w.tick()
+			}
+			for _, p := range pipelined {
+				p.call.results, p.call.waitErr = p.f.Wait(context.Background())
+				p.call.retSeq = w.tick()
 			}
 		})
 	}
@@ -573,6 +679,12 @@ func c29bAccount(w *c29bWorld) {
 	}
 	if w.parkedPersist > 0 {
 		st["exec_with_parked_post_commit"]++
+	}
+	if w.arrivedInWindow > 0 {
+		st["exec_with_batch_submitted_during_prepare_while_append_in_flight"]++
+	}
+	if w.prepConcurrent > 1 {
+		st["exec_with_concurrent_prepare_calls_on_one_channel"]++
 	}
 	for _, c := range w.calls {
 		if c.afterStop {
@@ -739,16 +851,31 @@ func c29bCheck(x *vsched.Exec) error {
 		}
 	}
 	// ordered: s before t (same batch: lower index; other batch: s's call returned before t's
-	// call started) => seq(s) < seq(t)
+	// call started - with cfg.subOrder: s's SubmitLocal call returned before t's SubmitLocal
+	// call started, i.e. s was in the writer's inbox before t was submitted) => seq(s) < seq(t)
 	for ch := range owns {
 		for _, s := range owns[ch] {
 			for _, t := range owns[ch] {
 				before := (s.call == t.call && s.idx < t.idx) || (s.call != t.call && s.call.retSeq != 0 && s.call.retSeq < t.call.callSeq)
+				pipelinedBefore := false
+				if !before && w.cfg.subOrder && s.call != t.call && s.call.subRetSeq != 0 && s.call.subRetSeq < t.call.callSeq {
+					before, pipelinedBefore = true, true
+				}
 				if before && s.seq >= t.seq {
-					return vsched.Violatef(P+":success-sequence-not-increasing-in-submission-order", "channel %s: send %s (seq %d) was submitted before send %s (seq %d)", c29bChannels[ch], s.call.tags[s.idx], s.seq, t.call.tags[t.idx], t.seq)
+					if pipelinedBefore {
+						st["order_violations_between_pipelined_submissions"]++
+					}
+					return vsched.Violatef(P+":success-sequence-not-increasing-in-submission-order", "channel %s: send %s (seq %d) was submitted before send %s (seq %d) [submission order: %s; max concurrent prepare calls on one channel: %d]", c29bChannels[ch], s.call.tags[s.idx], s.seq, t.call.tags[t.idx], t.seq,
+						map[bool]string{true: "SubmitLocal of the first had returned before SubmitLocal of the second was called, both futures outstanding", false: "same batch / the first call was complete"}[pipelinedBefore], w.prepConcurrent)
 				}
 				if s.call == t.call && s.idx < t.idx {
 					st["ordered_pairs_in_one_batch"]++
+				}
+				if pipelinedBefore {
+					st["ordered_pairs_between_pipelined_submissions"]++
+					if s.call.thread != t.call.thread {
+						st["ordered_pairs_between_pipelined_submissions_of_two_submitters"]++
+					}
 				}
 			}
 		}
@@ -845,7 +972,14 @@ func c29bRun(t *testing.T, property string, cfgs []c29bCfg, guards []string, min
 	}
 	var execs int64
 	outcomes := 0
+	only := os.Getenv("VERIF_C29_ONLY") // development aid: run only the scenarios whose name contains this (the guards then fail)
 	for _, c := range cfgs {
+		if only != "" && !strings.Contains(c.name, only) {
+			continue
+		}
+		if b := os.Getenv("VERIF_C29_BOUND"); only != "" && b != "" {
+			fmt.Sscanf(b, "%d", &c.bound)
+		}
 		start := time.Now()
 		st := vsched.Explore(r, c29bScenario(c))
 		execs += st.Executions
@@ -893,6 +1027,18 @@ func c29bName(c *c29bCfg, base string) {
 	if !c.quiet {
 		c.name += "-atomics"
 	}
+	if c.pipeline {
+		c.name += "-pipe"
+	}
+	if c.paced {
+		c.name += "-paced"
+	}
+	if c.prep != "" {
+		c.name += "-prep" + c.prep
+	}
+	if c.parkSubmitted {
+		c.name += "-parksub"
+	}
 }
 
 func TestVerifC29Group(t *testing.T) {
@@ -904,6 +1050,9 @@ func TestVerifC29Group(t *testing.T) {
 		if c.inflight == 0 {
 			c.inflight = 1
 		}
+		// one append in flight per channel: effects reach the Appender in writer order, so the
+		// inbox order (= order of SubmitLocal calls) is the order of the sequences
+		c.subOrder = !c.router && c.inflight == 1
 		if c.effect == 0 {
 			c.effect = 1
 		}
@@ -922,6 +1071,11 @@ func TestVerifC29Group(t *testing.T) {
 	// a send without client message number next to an idempotent one, reply-lost fault
 	keyless := [2][][]string{{{"ax", "aa"}}, {{"ab"}}}
 	dupQ := [2][][]string{{{"aa", "bb"}}, {{"aa", "bd"}, {"aA"}}}
+	// pipelined single-send batches of two submitters on ONE channel (futures awaited afterwards):
+	// with AdvancePoolSize 2, one append in flight and a prepare latency, each batch arrives while
+	// the writer pass prepares its predecessor and the per-channel in-flight limit is reached
+	pipe4 := [2][][]string{{{"aa"}, {"ab"}}, {{"ac"}, {"ad"}}}
+	pipe5 := [2][][]string{{{"aa"}, {"ab"}, {"ac"}}, {{"ad"}, {"ax"}}}
 	if thorough {
 		add("keyless", c29bCfg{scripts: keyless, faults: true, bound: 3})
 		add("dup", c29bCfg{router: true, scripts: dupRouter, bound: 3})
@@ -939,7 +1093,16 @@ func TestVerifC29Group(t *testing.T) {
 		add("two", c29bCfg{scripts: twoChan, slow: true, advance: 2, effect: 2, stop: "stop", bound: 3})
 		add("two", c29bCfg{scripts: twoChan, stop: "stop", gate: 1, bound: 3})
 		add("dup", c29bCfg{router: true, scripts: dupRouter, slow: true, stop: "stop", gate: 1, bound: 2})
+		for _, pc := range []bool{false, true} {
+			add("pipe", c29bCfg{scripts: pipe5, pipeline: true, paced: true, prep: "sleep", parkSubmitted: true, advance: 2, postCommit: pc, bound: 3})
+			add("pipe", c29bCfg{scripts: pipe4, pipeline: true, paced: true, prep: "point", parkSubmitted: true, advance: 2, postCommit: pc, bound: 3})
+			add("pipe", c29bCfg{scripts: pipe4, pipeline: true, paced: true, prep: "sleep", slow: true, advance: 2, effect: 2, postCommit: pc, bound: 3})
+		}
+		add("pipe", c29bCfg{scripts: pipe4, pipeline: true, prep: "sleep", parkSubmitted: true, advance: 2, bound: 3})
+		add("pipe", c29bCfg{scripts: pipe4, pipeline: true, prep: "point", slow: true, advance: 2, bound: 3})
 	} else {
+		add("pipe", c29bCfg{scripts: pipe4, pipeline: true, paced: true, prep: "sleep", parkSubmitted: true, advance: 2, bound: 2})
+		add("pipe", c29bCfg{scripts: pipe4, pipeline: true, paced: true, prep: "sleep", parkSubmitted: true, advance: 2, postCommit: true, bound: 1})
 		add("dup", c29bCfg{router: true, scripts: dupQ, bound: 2})
 		add("dup", c29bCfg{router: true, scripts: dupQ, slow: true, advance: 2, effect: 2, bound: 2})
 		add("seq", c29bCfg{scripts: seqGroup, slow: true, advance: 2, effect: 2, inflight: 2, bound: 2})
@@ -948,7 +1111,8 @@ func TestVerifC29Group(t *testing.T) {
 		add("two", c29bCfg{scripts: twoChan, slow: true, stop: "stop", gate: 1, bound: 2})
 	}
 	c29bRun(t, "C29", cfgs, []string{"append_port_conflicts", "append_port_retry_attempts", "successes_answered_with_an_earlier_message", "successes_with_own_new_message",
-		"exec_with_multi_message_append", "exec_with_concurrent_appends", "ordered_pairs_in_one_batch", "failed_items"}, 500)
+		"exec_with_multi_message_append", "exec_with_concurrent_appends", "ordered_pairs_in_one_batch", "failed_items",
+		"ordered_pairs_between_pipelined_submissions", "ordered_pairs_between_pipelined_submissions_of_two_submitters", "exec_with_batch_submitted_during_prepare_while_append_in_flight"}, 500)
 }
 
 func TestVerifC41Group(t *testing.T) {
